@@ -29,6 +29,9 @@ CHECKS = {
  'C08': ('model_checking', 'symbolic execution of clang LLVM IR of the lookup functions over tables built by executing their own dynamic initialisers (enumerator symbolic; input string arbitrary), plus ground comparison of the dumped tables with the enum declarations and with an independent unit-symbol expander',
          'Abbreviation / operator<< are executed with a symbolic enumerator of each of the 39 enumeration types and shown never to miss the table; ParseEnumeration is executed on an arbitrary byte string (every spelling, or none); the dumped tables are total, injective and round-trip; each of ~1900 spellings denotes, by O-unit, the unit it parses to.',
          'summaries for std::map/unordered_map construction and find, std::string/ostringstream; hash and equality of string_view are total functions of the bytes (contract); O-unit is the meaning of spellings; ground table facts are evaluated directly (the solver adds nothing there)', '3 C08'),
+ 'C07': ('model_checking', 'symbolic execution of clang LLVM IR of ConsistentUnit / RelatedUnitSystem (system or unit symbolic, including three-call sequences from the initial state) over tables built by executing their own initialisers, plus exact rational comparison of every consistent unit with the product of its system\'s base units by an independent unit-symbol expander',
+         'All 148 consistent units are shown exactly coherent (rational identity by O-unit); the reverse table is the inverse of the forward one; both lookups are executed with symbolic keys and shown to return the table entries, never to throw for a declared system, and to carry no state between consecutive lookups of neighbouring unit types.',
+         'O-unit readings and the four base-unit sets; map summaries; the conversion code is tied to the symbols by C01; ground facts evaluated directly', '3 C07'),
 }
 NA = {}
 def main():
